@@ -7,7 +7,7 @@
    vm_compute (Proofs/C07_Tables.v); everything about trust functions, callers and histories is general. *)
 From Coq Require Import String.
 From V Require Import Base.Common Base.Rpc Model.C07_Auth Model.C07_Spec Model.C07_Tables Gen.Policy Gen.RPCMethods
-  Proofs.C07_Auth Proofs.C07_Tables.
+  Model.C07_Check Proofs.C07_Auth Proofs.C07_Tables Proofs.C07_Monitor.
 Open Scope string_scope.
 
 (* ---- the specification, literally ---- *)
@@ -170,3 +170,230 @@ Example c07_example :
   trust_crdt (mk_crdt_cfg false 0%N [1%N]) [TTrust 2%N; TDistrust 1%N] 1%N = false /\
   deliver (mk_crdt_cfg false 0%N [1%N]) [] [(1%N, "a"); (2%N, "b"); (0%N, "c")] = ["a"; "c"].
 Proof. vm_compute. repeat split. Qed.
+
+(* ---------------- the run-time monitors of Model/C07_Check.v / Model/C07_CheckSpec.v and the theorems above ---------------- *)
+(* The harnesses record what the IMPLEMENTATION did (real gorpc calls between libp2p hosts, real crdt components); check_case
+   turns each record into failure codes: code 1 = the observation differs from the model (authorize over the generated policy,
+   trust_crdt, validator), code 2 = the observation itself violates the property over the hand-written specification tables.
+   For each case kind: (completeness) the case annotated with the model's own output raises no code, for every input - no guard
+   is needed for C07; (soundness) a case on which a code is absent satisfies the Prop-level clause the code stands for.
+   Helper definitions (dobs, deliver_cases, published, arrived_payloads, deliver_model_obs): Proofs/C07_Monitor.v. *)
+
+(* -- RPC grid (codes 1, 2): every trust mode (raft; crdt with any "*" flag, list and Trust/Distrust history), every caller,
+      every endpoint NAME (method or not) -- *)
+Theorem auth_model_passes_monitor id m caller ep :
+  check_case (id, CAuth m caller ep (call_allowed policy (N.eqb caller 0) (trust_of m caller) ep)) = [].
+Proof. exact (auth_model_passes_monitor_l id m caller ep). Qed.
+Print Assumptions auth_model_passes_monitor.
+
+(* no code 2: a remote caller that was served was not served on a local-only endpoint, and if the called peer does not trust it,
+   it was served on identity / version / join handshake only (the observation-level form of local_only_refused_to_all_remote and
+   untrusted_only_open) *)
+Theorem auth_monitor_sound id m caller ep passed :
+  (forall c, In c (check_case (id, CAuth m caller ep passed)) -> snd (fst c) <> 2%N) -> passed = true -> caller <> 0%N ->
+  ~ In ep local_only_spec /\ (trust_of m caller = false -> In ep open_spec).
+Proof. exact (auth_monitor_sound_l id m caller ep passed). Qed.
+Print Assumptions auth_monitor_sound.
+
+(* no code 1: the verdict is the model's; a remote caller that was served called a method of a registered service whose policy
+   entry is Open, or Trusted with the caller trusted by the called peer's consensus component (authorize_sound on the observation) *)
+Theorem auth_agreement_sound id m caller ep passed :
+  (forall c, In c (check_case (id, CAuth m caller ep passed)) -> snd (fst c) <> 1%N) ->
+  passed = call_allowed policy (N.eqb caller 0) (trust_of m caller) ep /\
+  (passed = true -> caller <> 0%N ->
+   In ep rpc_methods /\ (lookup ep policy = Some Open \/ (lookup ep policy = Some Trusted /\ trust_of m caller = true))).
+Proof. exact (auth_agreement_sound_l id m caller ep passed). Qed.
+Print Assumptions auth_agreement_sound.
+
+Example auth_monitor_example :
+  let m := MCrdt false [1%N] [TTrust 2%N; TDistrust 1%N] in
+  call_allowed policy (N.eqb 2 0) (trust_of m 2%N) "Consensus.LogPin" = true /\
+  call_allowed policy (N.eqb 1 0) (trust_of m 1%N) "Consensus.LogPin" = false /\
+  call_allowed policy (N.eqb 1 0) (trust_of m 1%N) "Cluster.ID" = true /\
+  call_allowed policy (N.eqb 0 0) (trust_of m 0%N) "Cluster.Pin" = true /\
+  (* a local-only endpoint served to a remote peer, a trusted endpoint served to a distrusted peer: codes 1 and 2 *)
+  check_case (7%N, CAuth MRaft 1%N "Cluster.Pin" true) = [(7, 1, 0); (7, 2, 0)]%N /\
+  check_case (7%N, CAuth m 1%N "PinTracker.Status" true) = [(7, 1, 0); (7, 2, 0)]%N /\
+  (* a trusted peer refused on an inter-peer endpoint: not what the model does (code 1), no violation of the property (no code 2) *)
+  check_case (7%N, CAuth m 2%N "Consensus.LogPin" false) = [(7, 1, 0)]%N.
+Proof. vm_compute. repeat split. Qed.
+
+(* -- the generated tables are what the running peer carries (code 1 only) -- *)
+(* reflection on the service objects lists the methods in whatever order *)
+Theorem methods_model_passes_monitor id l : Permutation.Permutation l rpc_methods -> check_case (id, CMethods l) = [].
+Proof. exact (methods_model_passes_monitor_l id l). Qed.
+Print Assumptions methods_model_passes_monitor.
+
+Theorem methods_monitor_sound id l :
+  (forall c, In c (check_case (id, CMethods l)) -> snd (fst c) <> 1%N) -> Permutation.Permutation l rpc_methods.
+Proof. exact (methods_monitor_sound_l id l). Qed.
+Print Assumptions methods_monitor_sound.
+
+(* the run-time policy is a Go map: whatever order it is walked in *)
+Theorem policy_model_passes_monitor id l : Permutation.Permutation l policy -> check_case (id, CPolicy l) = [].
+Proof. exact (policy_model_passes_monitor_l id l). Qed.
+Print Assumptions policy_model_passes_monitor.
+
+(* no code 1: the map the configuration carries answers every key as the generated table: authF over it = the model over `policy` *)
+Theorem policy_monitor_sound id l :
+  (forall c, In c (check_case (id, CPolicy l)) -> snd (fst c) <> 1%N) ->
+  (forall k, lookup k l = lookup k policy) /\ (forall trusted ep, authorize l trusted ep = authorize policy trusted ep).
+Proof. exact (policy_monitor_sound_l id l). Qed.
+Print Assumptions policy_monitor_sound.
+
+(* isRPCPolicyValid: the model's verdict is `true` (policy_total) *)
+Theorem policy_valid_model_passes_monitor id : check_case (id, CPolicyValid true) = [].
+Proof. exact (policy_valid_model_passes_monitor_l id). Qed.
+Print Assumptions policy_valid_model_passes_monitor.
+
+Theorem policy_valid_monitor_sound id ok :
+  (forall c, In c (check_case (id, CPolicyValid ok)) -> snd (fst c) <> 1%N) -> ok = true.
+Proof. exact (policy_valid_monitor_sound_l id ok). Qed.
+Print Assumptions policy_valid_monitor_sound.
+
+Example tables_monitor_example :
+  Permutation.Permutation (rev rpc_methods) rpc_methods /\ Permutation.Permutation (rev policy) policy /\
+  check_case (3%N, CMethods (rev rpc_methods)) = [] /\ check_case (3%N, CPolicy (rev policy)) = [] /\
+  (* a method the table does not know, a missing method, a listed method twice; an entry changed, an entry missing; a refusal *)
+  check_case (3%N, CMethods ("PeerMonitor.NoSuchMethod" :: rpc_methods)) = [(3, 1, 0)]%N /\
+  check_case (3%N, CMethods (tl rpc_methods)) = [(3, 1, 0)]%N /\
+  check_case (3%N, CMethods ("Cluster.ID" :: rpc_methods)) = [(3, 1, 0)]%N /\
+  check_case (3%N, CPolicy (("Cluster.Pin", Trusted) :: policy)) = [(3, 1, 0)]%N /\
+  check_case (3%N, CPolicy (tl policy)) = [(3, 1, 0)]%N /\
+  check_case (3%N, CPolicyValid false) = [(3, 1, 0)]%N.
+Proof. split; [apply Permutation.Permutation_sym, Permutation.Permutation_rev|].
+  split; [apply Permutation.Permutation_sym, Permutation.Permutation_rev|]. vm_compute. repeat split. Qed.
+
+(* -- package crdt, IsTrustedPeer(0..n-1) after a history (code 1): every "*" flag, configured list, history, n -- *)
+Theorem trust_model_passes_monitor id star l h n :
+  check_case (id, CTrust star l h (map (trust_crdt (mk_crdt_cfg star 0%N l) h) (seqN 0 n))) = [].
+Proof. exact (trust_model_passes_monitor_l id star l h n). Qed.
+Print Assumptions trust_model_passes_monitor.
+
+(* no code 1: every answer is what the configuration and the history call for (trust_follows_history on the observation) *)
+Theorem trust_monitor_sound id star l h obs :
+  (forall c, In c (check_case (id, CTrust star l h obs)) -> snd (fst c) <> 1%N) ->
+  forall i, (i < length obs)%nat -> let p := N.of_nat i in
+    nth i obs false = trust_crdt (mk_crdt_cfg star 0%N l) h p /\
+    (nth i obs false = true <-> star = true \/ p = 0%N \/ last_op p h = Some true \/ (last_op p h = None /\ In p l)).
+Proof. exact (trust_monitor_sound_l id star l h obs). Qed.
+Print Assumptions trust_monitor_sound.
+
+(* -- the same with the configuration as written in the file (codes 1, 2): every trusted_peers value (absent, null, any list,
+      "*" anywhere), with or without the Manager's environment pass, every history, every n -- *)
+Theorem trustj_model_passes_monitor id tp (env : bool) h n :
+  let cfg := if env then env_pass (cfg_of_json 0%N tp) else cfg_of_json 0%N tp in
+  check_case (id, CTrustJ tp env h (map (trust_crdt cfg h) (seqN 0 n))) = [].
+Proof. exact (trustj_model_passes_monitor_l id tp env h n). Qed.
+Print Assumptions trustj_model_passes_monitor.
+
+(* no code 2: right after loading, a peer other than the component itself is reported trusted only if it, or "*", is written in
+   the file (trust_follows_configuration_file, left to right, on the observation) *)
+Theorem trustj_monitor_sound id tp env h obs :
+  (forall c, In c (check_case (id, CTrustJ tp env h obs)) -> snd (fst c) <> 2%N) -> h = [] ->
+  forall i, (i < length obs)%nat -> nth i obs false = true ->
+    i = 0%nat \/ exists l, tp = Some l /\ (In TStar l \/ In (TPeer (N.of_nat i)) l).
+Proof. exact (trustj_monitor_sound_l id tp env h obs). Qed.
+Print Assumptions trustj_monitor_sound.
+
+(* no code 1: every answer is the model's on the loaded configuration - the environment pass changes nothing -: the component
+   itself, "*" written, a later Trust call, or written in the file and not touched since *)
+Theorem trustj_agreement_sound id tp env h obs :
+  (forall c, In c (check_case (id, CTrustJ tp env h obs)) -> snd (fst c) <> 1%N) ->
+  forall i, (i < length obs)%nat -> let p := N.of_nat i in
+    nth i obs false = trust_crdt (cfg_of_json 0%N tp) h p /\
+    (nth i obs false = true <->
+     p = 0%N \/ (exists l, tp = Some l /\ In TStar l) \/ last_op p h = Some true \/
+     (last_op p h = None /\ exists l, tp = Some l /\ In (TPeer p) l)).
+Proof. exact (trustj_agreement_sound_l id tp env h obs). Qed.
+Print Assumptions trustj_agreement_sound.
+
+Example trust_monitor_example :
+  map (trust_crdt (mk_crdt_cfg false 0%N [1%N; 3%N]) [TTrust 2%N; TDistrust 1%N; TDistrust 0%N]) (seqN 0 5)
+    = [true; false; true; true; false] /\
+  map (trust_crdt (env_pass (cfg_of_json 0%N (Some [TPeer 2%N; TStar; TPeer 4%N]))) [TDistrust 2%N]) (seqN 0 4)
+    = [true; true; true; true] /\
+  map (trust_crdt (cfg_of_json 0%N None) [TTrust 3%N]) (seqN 0 4) = [true; false; false; true] /\
+  (* Distrust without effect: code 1 *)
+  check_case (5%N, CTrust false [1%N; 3%N] [TTrust 2%N; TDistrust 1%N] [true; true; true; true]) = [(5, 1, 0)]%N /\
+  (* a section without the trusted_peers key loaded as trust-all (the shape of seeded change C07c): codes 1 and 2 *)
+  check_case (5%N, CTrustJ None false [] [true; true; true; true]) = [(5, 1, 0); (5, 2, 0)]%N /\
+  (* a listed peer reported untrusted: not the model (code 1), not a violation of the monitored direction (no code 2) *)
+  check_case (5%N, CTrustJ (Some [TPeer 2%N]) true [] [true; false; false; false]) = [(5, 1, 0)]%N.
+Proof. vm_compute. repeat split. Qed.
+
+(* -- package crdt, a signed update handed to peer 0 directly or through a relay (codes 1, 2): every trust state of peer 0,
+      signer, forwarder, relay verdict -- *)
+Theorem deliver_model_passes_monitor id star l h signer forwarder relay_ok :
+  check_case (id, CDeliver star l h signer forwarder relay_ok (relay_ok && validator (mk_crdt_cfg star 0%N l) h signer)) = [].
+Proof. exact (deliver_model_passes_monitor_l id star l h signer forwarder relay_ok). Qed.
+Print Assumptions deliver_model_passes_monitor.
+
+(* no code 2: an update signed by a peer the replica does not trust did not reach its state, whoever handed it over *)
+Theorem deliver_monitor_sound id star l h signer forwarder relay_ok arrived :
+  (forall c, In c (check_case (id, CDeliver star l h signer forwarder relay_ok arrived)) -> snd (fst c) <> 2%N) ->
+  trust_crdt (mk_crdt_cfg star 0%N l) h signer = false -> arrived = false.
+Proof. exact (deliver_monitor_sound_l id star l h signer forwarder relay_ok arrived). Qed.
+Print Assumptions deliver_monitor_sound.
+
+(* no code 1: it arrived iff the relay passed it on and the SIGNER is trusted - never a function of the forwarder *)
+Theorem deliver_agreement_sound id star l h signer forwarder relay_ok arrived :
+  (forall c, In c (check_case (id, CDeliver star l h signer forwarder relay_ok arrived)) -> snd (fst c) <> 1%N) ->
+  arrived = relay_ok && trust_crdt (mk_crdt_cfg star 0%N l) h signer.
+Proof. exact (deliver_agreement_sound_l id star l h signer forwarder relay_ok arrived). Qed.
+Print Assumptions deliver_agreement_sound.
+
+(* any number of messages (any payload type, signers, forwarders, relay verdicts), against `deliver` of the theorems
+   untrusted_broadcast_ignored / untrusted_broadcast_no_effect / delivered_was_signed_by_trusted: the message list annotated with
+   the model's verdicts raises no code, is the published list, and - every relay passing on - what arrives is `deliver` *)
+Theorem deliver_list_model_passes_monitor (U : Type) id star l h (fwd : N * U -> N) (rok : N * U -> bool) (msgs : list (N * U)) :
+  let cfg := mk_crdt_cfg star 0%N l in
+  C07_Check.failing (deliver_cases id star l h (deliver_model_obs cfg h fwd rok msgs)) = [] /\
+  published (deliver_model_obs cfg h fwd rok msgs) = msgs /\
+  ((forall m, In m msgs -> rok m = true) -> arrived_payloads (deliver_model_obs cfg h fwd rok msgs) = deliver cfg h msgs).
+Proof. exact (deliver_list_model_passes_l id star l h fwd rok msgs). Qed.
+Print Assumptions deliver_list_model_passes_monitor.
+
+(* no code 2 on any case of an observed message list: whatever reached the state is among what the model's replica merges from
+   the published list, and nothing signed by an untrusted peer arrived *)
+Theorem deliver_list_monitor_sound (U : Type) id star l h (obs : list (dobs U)) :
+  let cfg := mk_crdt_cfg star 0%N l in
+  (forall c, In c (C07_Check.failing (deliver_cases id star l h obs)) -> snd (fst c) <> 2%N) ->
+  (forall x, In x (arrived_payloads obs) -> In x (deliver cfg h (published obs))) /\
+  (forall u, trust_crdt cfg h u = false -> forall o, In o obs -> d_signer o = u -> d_arrived o = false).
+Proof. exact (deliver_list_monitor_sound_l id star l h obs). Qed.
+Print Assumptions deliver_list_monitor_sound.
+
+(* no code 1 on any case, every relay passing on: what reached the state is exactly what the model's replica merges *)
+Theorem deliver_list_agreement_sound (U : Type) id star l h (obs : list (dobs U)) :
+  (forall c, In c (C07_Check.failing (deliver_cases id star l h obs)) -> snd (fst c) <> 1%N) ->
+  (forall o, In o obs -> d_relay_ok o = true) ->
+  arrived_payloads obs = deliver (mk_crdt_cfg star 0%N l) h (published obs).
+Proof. exact (deliver_list_agreement_l id star l h obs). Qed.
+Print Assumptions deliver_list_agreement_sound.
+
+Example deliver_monitor_example :
+  let cfg := mk_crdt_cfg false 0%N [1%N] in
+  let msgs := [(1%N, "a"); (2%N, "b"); (0%N, "c"); (2%N, "d")] in
+  (* peer 0 trusts itself and peer 1: the updates signed by 2 are dropped, also when the trusted peer 1 hands them over *)
+  arrived_payloads (deliver_model_obs cfg [] (fun _ => 1%N) (fun _ => true) msgs) = ["a"; "c"] /\
+  deliver cfg [] msgs = ["a"; "c"] /\
+  (* after Trust(2) they arrive, unless the relay dropped them *)
+  arrived_payloads (deliver_model_obs cfg [TTrust 2%N] (fun _ => 1%N) (fun m => negb (N.eqb (fst m) 2) || String.eqb (snd m) "d") msgs)
+    = ["a"; "c"; "d"] /\
+  (* a validator looking at the forwarder (1, trusted) instead of the signer (2, not trusted): codes 1 and 2 *)
+  check_case (9%N, CDeliver false [1%N] [] 2 1 true true) = [(9, 1, 0); (9, 2, 0)]%N /\
+  (* an update of a trusted signer that the relay passed on and that never arrived: code 1 only *)
+  check_case (9%N, CDeliver false [1%N; 2%N] [] 2 1 true false) = [(9, 1, 0)]%N /\
+  C07_Check.failing (deliver_cases 9%N false [1%N] []
+     [mk_dobs 1%N "a" 1%N true true; mk_dobs 2%N "b" 1%N true true]) = [(9, 1, 0); (9, 2, 0)]%N.
+Proof. vm_compute. repeat split. Qed.
+
+(* -- every case kind at once -- *)
+(* on ANY case (any kind, input, observation): if code 1 is absent - the implementation did what the model does - no code at all
+   is produced. The specification-level monitors (code 2) never alarm on behaviour the model allows; "agrees with the model on
+   this input" implies "satisfies every monitored clause on this input". No guard. *)
+Theorem agreement_implies_no_alarm c :
+  (forall x, In x (check_case c) -> snd (fst x) <> 1%N) -> check_case c = [].
+Proof. exact (agreement_no_alarm_l c). Qed.
+Print Assumptions agreement_implies_no_alarm.
